@@ -22,4 +22,37 @@ CLAIMED["C19"] = {
           "Input named like an output file is overwritten (hypothesis of C19_nothing_else_touched).",
   "technique": "Coq proof over an abstract file system + binary-level correspondence",
 }
+CLAIMED["C13"] = {
+  "text": "Model-side theorems: the lexer terminates on every byte string, the pipeline returns a script xor a failure, missing files and lexical errors "
+          "are failures; the parser/converter models carry explicit fuel and panic outcomes whose absence is CHECKED (not proved) on adversarial inputs: "
+          "token edits, truncations, byte soup, all kinds of import graphs incl. cycles - implementation under recover() and a watchdog, verdict, AST and "
+          "script bytes equal to the model's.",
+  "ref": "DESIGN.md section 5/C13",
+  "note": "PARTIAL: C13_full_statement (fuel adequacy of the parser model, no converter panic) is stated, not proved; termination of the Go code itself is observed, not proved.",
+  "technique": "Coq proof (lexer totality, outcome shape) + adversarial model/implementation correspondence",
+}
+CLAIMED["C12"] = {
+  "text": "Theorems: two renderings of one token sequence (any blanks, comments, blank/comment-only lines, CRLF, final newline) give the parser the same "
+          "normalised token list; the pipeline depends on the main file only through that list, hence same verdict and byte-identical scripts. "
+          "Metamorphic correspondence: 8 layouts per program through the implementation and the model.",
+  "ref": "DESIGN.md section 5/C12",
+  "note": "Rests on the fix that collapses newline runs before parsing. Known finding: 'a-1' lexes differently from 'a - 1'.",
+  "technique": "Coq proof (lexer round trip + token normalisation) + metamorphic correspondence",
+}
+CLAIMED["C14"] = {
+  "text": "Theorem: any history of calls on one transpiler object returns, call by call, the pure function of (sources, target). Checked against the "
+          "implementation in-process, in fresh processes and from a relocated tree, and against the model.",
+  "ref": "DESIGN.md section 5/C14",
+  "note": "PARTIAL on the runtime side: Go map seeds/process state are sampled, not modelled.",
+  "technique": "Coq proof over a state machine of calls + history correspondence",
+}
+CLAIMED["C09"] = {
+  "text": "Theorems: the used-function closure contains everything reachable in the recorded call graph, cleanProgram never drops a reachable definition "
+          "or any other statement, merging call graphs of imports loses no edge. Import graphs with known module semantics are transpiled by the "
+          "implementation and executed under Bash; AST/script bytes equal the model's.",
+  "ref": "DESIGN.md section 5/C09",
+  "note": "Known finding: a file reached along several import paths/aliases has its top-level code and private globals duplicated. "
+          "The alias/prefix part of the property is checked by execution, the theorems cover the removal part.",
+  "technique": "Coq proof (reachability closure) + execution of generated module graphs",
+}
 NOT_CLAIMED = {}
